@@ -84,6 +84,15 @@ Theorem bundle_freq_partition : forall (w : Z) (l : list file),
   /\ adjacent_differ (bin_of w (origin_of l)) (bundle_f w l).
 Proof. intros w l. exact (group_runs_ok (bin_of w (origin_of l)) l). Qed.
 
+(* a fileset whose path has no placeholder is one file with the coverage `time_coverage`: it is yielded iff
+   that coverage meets the semi-open period; an empty period is a ValueError *)
+Theorem single_file_exact : forall (cov : Z * Z) (s e : Z), s < e ->
+  single_find cov s e = Some ((fst cov <? e) && (s <=? snd cov)).
+Proof. exact single_find_ok. Qed.
+
+Theorem single_file_empty_period : forall (cov : Z * Z) (s e : Z), e <= s -> single_find cov s e = None.
+Proof. exact single_find_err. Qed.
+
 (* the code BEFORE fix C01_1 (resolution of the current level only) violates the property on an input that
    meets every hypothesis: a non-temporal level below {year}/{month}/{day} *)
 Theorem find_asis_refuted : exists lay fs q,
@@ -114,4 +123,6 @@ Print Assumptions len_agrees.
 Print Assumptions len_counts_unexcluded.
 Print Assumptions bundle_count_partition.
 Print Assumptions bundle_freq_partition.
+Print Assumptions single_file_exact.
+Print Assumptions single_file_empty_period.
 Print Assumptions find_asis_refuted.
